@@ -1020,6 +1020,10 @@ MD_GRAFTS = {
     "md_job_missing_dependency_on_first": [_JOB("j0", "x = 1", ["nothere"]), _JOB("j1", "y = 1", ["j0"]), _JOB("j0", "x = 1")],
     "md_job_cycle_via_repeat": [_JOB("j0", "x = 1"), _JOB("j1", "y = 1", ["j0"]), _JOB("j0", "x = 1", ["j1"])],
     "md_unknown_type": {"metadata_type": "bogus_type", "name": "x"},
+    # an unknown (misspelt) metadata type NEXT TO valid blocks, in either position
+    "md_unknown_type_after_valid": [_JOB("j0", "x = 1"), {"metadata_type": "add_job_scripts", "name": "j1", "script": ["y = 1"]}],
+    "md_unknown_type_before_valid": [{"metadata_type": "add_job_scripts", "name": "j1", "script": ["y = 1"]}, _JOB("j0", "x = 1")],
+    "md_unknown_type_between_blocks": [_BLK("b0", "a.h"), {"metadata_type": "inject_codes", "name": "b1", "body_includes": ["b.h"]}, _BLK("b2", "c.h")],
     "md_missing_type": {"name": "x"},
     "md_bad_inject_field": {"metadata_type": "inject_code", "name": "blk", "bogus_field": ["int x;"]},
     "md_collection_extra_key": {"metadata_type": "add_atlas_event_collection_info", "name": "MyJets", "include_files": ["a.h"], "container_type": "xAOD::JetContainer", "element_type": "xAOD::Jet", "contains_collection": True, "what_is_this": 1},
